@@ -318,7 +318,7 @@ func schJSON(sb *strings.Builder, v *Val) {
 
 // SchRoutes lists the routes a tree can take into a builder.
 func SchRoutes(v *Val) []string {
-	out := []string{"direct", "cbor"}
+	out := []string{"direct", "kv", "cbor"}
 	if SchJSONable(v) {
 		out = append(out, "json")
 	}
@@ -334,6 +334,8 @@ func SchFeed(nb datamodel.NodeBuilder, v *Val, route string) error {
 		switch route {
 		case "direct":
 			return Assemble(nb, v)
+		case "kv":
+			return SchAssembleKV(nb, v)
 		case "node":
 			n, err := BuildBasic(v)
 			if err != nil {
@@ -347,6 +349,39 @@ func SchFeed(nb datamodel.NodeBuilder, v *Val, route string) error {
 		}
 		return fmt.Errorf("harness: unknown route %s", route)
 	})
+}
+
+// SchAssembleKV is Assemble with every map entry made through AssembleKey().AssignString(k) followed
+// by AssembleValue() instead of AssembleEntry(k): the path datamodel.Copy and AssignNode take.
+func SchAssembleKV(na datamodel.NodeAssembler, v *Val) error {
+	switch v.Kind {
+	case KList:
+		la, err := na.BeginList(int64(len(v.L)))
+		if err != nil {
+			return err
+		}
+		for _, x := range v.L {
+			if err := SchAssembleKV(la.AssembleValue(), x); err != nil {
+				return err
+			}
+		}
+		return la.Finish()
+	case KMap:
+		ma, err := na.BeginMap(int64(len(v.M)))
+		if err != nil {
+			return err
+		}
+		for _, e := range v.M {
+			if err := ma.AssembleKey().AssignString(e.K); err != nil {
+				return err
+			}
+			if err := SchAssembleKV(ma.AssembleValue(), e.V); err != nil {
+				return err
+			}
+		}
+		return ma.Finish()
+	}
+	return Assemble(na, v)
 }
 
 // SchBuild runs one build and canonicalises the outcome: ok|T=<type view>|R=<repr view>, err, panic.
